@@ -139,6 +139,24 @@ def check(run: Run) -> None:
     for it, rep in pending:
         run.report("C01/union" if id(it) in bad else "C01/union-dumped-through-largest-member", rep)
     report_unexplained(run, mism, explained, "corr_rw (Model.Reader.read_top / Model.Writer.dumps vs the implementation)")
+    # LEB128 members: every value near a 7-bit group boundary survives dump + parse, in both signednesses (and the next member stays where it is)
+    for compiled in (False, True):
+        cs_l = structs.load("struct main { ileb128 s; uleb128 u; uint8 t; };", compiled=compiled)
+        vals = sorted(set(list(range(-130, 131)) + [sg * (2 ** k) + dlt for k in (7, 13, 14, 20, 21, 27, 28, 35, 63, 64, 70) for sg in (1, -1) for dlt in (-2, -1, 0, 1, 2)]))
+        for v in vals:
+            n_oracle += 1
+            try:
+                out = cs_l.main(s=v, u=abs(v), t=0x5A).dumps()
+                back = cs_l.main(out + b"\x00")
+                got = (int(back.s), int(back.u), int(back.t))
+            except Exception as e:  # noqa: BLE001
+                got = f"{type(e).__name__}: {e}"
+            if got != (v, abs(v), 0x5A):
+                failures += 1
+                run.report("C01/leb128-round-trip", {"definition": "struct main { ileb128 s; uleb128 u; uint8 t; };", "load_kwargs": {"compiled": compiled, "align": False},
+                           "ops": [{"op": f"construct s={v} u={abs(v)} t=0x5a, dump, parse", "observed": repr(got), "expected": repr((v, abs(v), 0x5A))}]})
+                break
+
     F.obligation_fallback(run, ok, bool(failures or mism))
     F.finish_cov(run, items, mism,
                  "random definitions (scalars, enums/flags, arrays of all four length forms, nested/anonymous structs, bit fields, pointers, every 5th with unions) x "
